@@ -12,3 +12,14 @@ Definition u64_of_f (q : Q) : Z := u64 (trunc_q q).
 Definition i64_of_f (q : Q) : Z := wrap64 (trunc_q q).
 Definition Qgeb (a b : Q) : bool := Qle_bool b a.
 Definition usub64 (a b : Z) : Z := u64 (a - b).
+
+(* kernels2: Go's integer division truncates toward zero (Z.quot / Z.rem), the one overflowing case
+   MinInt64 / -1 wraps; math.Round rounds half away from zero and is exact (its result is an integer
+   of magnitude at most |q| + 1/2: the theorems that use it state the range) *)
+Definition quot64 (a b : Z) : Z := wrap64 (Z.quot a b).
+Definition rem64 (a b : Z) : Z := wrap64 (Z.rem a b).
+Definition round_half_away (q : Q) : Z :=
+  let n := Qnum q in
+  let d := Zpos (Qden q) in
+  Z.sgn n * ((2 * Z.abs n + d) / (2 * d)).
+Definition fround (q : Q) : Q := inject_Z (round_half_away q).
